@@ -603,7 +603,7 @@ func (d *hoDriver) mutatedProcess(h int64, round, proposer int, now time.Time, v
 		}
 		return tx
 	}
-	muts := []string{"reorder", "dupBlock", "dropBlock", "blockLater", "blockLaterValid", "blockPairLater", "blockPairFirst", "wrongParent", "wrongNumber", "wrongBeacon", "wrongProposer", "wrongRecipient",
+	muts := []string{"reorder", "dupBlock", "dropBlock", "blockLater", "blockLaterValid", "blockChild", "blockChild", "blockPairLater", "blockPairFirst", "wrongParent", "wrongNumber", "wrongBeacon", "wrongProposer", "wrongRecipient",
 		"recipientPadded", "recipientShort", "sysAdded", "sysRemoved", "sysAltered", "countByte", "reqGarbage", "gas0", "gas2", "futureTime", "engineInvalid", "engineSyncing", "tooMany", "empty",
 		"garbageRest", "timeoutWrong", "badSig", "blob"}
 	mut := muts[r.Intn(len(muts))]
@@ -637,6 +637,29 @@ func (d *hoDriver) mutatedProcess(h int64, round, proposer int, now time.Time, v
 	case "dupBlock", "blockLater":
 		txs = append(txs, honest[0])
 		restOk = false // the same transaction twice: the second one no longer has a valid account sequence
+	case "blockChild":
+		// a second execution-block message (in a later transaction, otherwise admissible) whose payload is a CHILD of the first
+		// one: parent = the first payload, number + 1, the same beacon root, no system transactions. If it took effect the head
+		// would move by two execution blocks in one consensus block.
+		v := c.KR.Vals[proposer]
+		_, seq, ok := c.Account(v.Addr)
+		if !ok {
+			return nil
+		}
+		child := clone()
+		child.ParentHash = append([]byte{}, pl.BlockHash...)
+		child.BlockNumber = pl.BlockNumber + 1
+		child.Transactions = [][]byte{}
+		if len(child.ExtraData) > 0 {
+			child.ExtraData[0] = 0
+		}
+		rehash(child)
+		sq := seq + 1
+		bz, err := c.SignTx(v.Priv, []sdk.Msg{&goatmodtypes.MsgNewEthBlock{Proposer: sdk.MustBech32ifyAddressBytes("goat", v.Addr), Payload: child}}, sim.SignOpts{TimeoutHeight: uint64(h), Seq: &sq})
+		if err != nil {
+			return err
+		}
+		txs = append(txs, bz)
 	case "blockLaterValid", "blockPairLater", "blockPairFirst":
 		// further execution-block messages in transactions that are otherwise admissible (right signer, next sequence,
 		// timeout = height): only the placement rule - first transaction, alone in it, only one - stands against them
@@ -849,7 +872,8 @@ func (d *hoDriver) mutatedProcess(h int64, round, proposer int, now time.Time, v
 	// then crashes before Commit, so nothing of it persists.
 	byzFinal := map[string]bool{"wrongParent": true, "wrongNumber": true, "wrongBeacon": true, "wrongProposer": true, "wrongRecipient": true,
 		"recipientPadded": true, "recipientShort": true, "sysAdded": true, "sysRemoved": true, "sysAltered": true, "countByte": true,
-		"reqGarbage": true, "gas0": true, "gas2": true, "futureTime": true, "blob": true, "timeoutWrong": true}
+		"reqGarbage": true, "gas0": true, "gas2": true, "futureTime": true, "blob": true, "timeoutWrong": true,
+		"blockChild": true, "blockLaterValid": true, "blockPairLater": true}
 	if byzFinal[mut] && h > c.InitialHeight && (skew || r.Intn(2) == 0) {
 		prevApp := c.App.LastCommitID().Hash
 		txsDigest := sha256.New()
